@@ -289,7 +289,8 @@ theorem clenPart_props (s : St) :
     · exact ⟨snapOK_hdel _ _, rfl, rfl, rfl, rfl, rfl, rfl, rfl⟩
   · exact ⟨id, rfl, rfl, rfl, rfl, rfl, rfl, rfl⟩
 
-theorem mem_opt (n c : Str) (f : Str × Str) (h : f ∈ (if c.isEmpty then [] else [(n, c)])) : f.1 = n := by
+theorem mem_opt (n c : Str) (f : Str × Str) (h : f ∈ optField n c) : f.1 = n := by
+  unfold optField at h
   split at h
   · cases h
   · rw [List.mem_singleton.mp h]
